@@ -11,6 +11,6 @@ func init() {
 		{key: "py|StaticMethod.M__get__", prop: "C16", rule: "C16.R4", show: []string{"*"}, doc: "a staticmethod binds nothing: the plain callable is returned"},
 		{key: "repl|REPL.Run", prop: "C20", rule: "C20.R3", show: []string{"Compile", "RunCode", "SetPrompt", "Print", "TracebackDump", "defer"},
 			prim: []string{"py.Compile", "py.IsException", "py.TracebackDump"},
-			doc: "line-at-a-time driver: in continuation mode a non-empty line is only buffered; an empty line (or any line outside continuation mode) compiles buffer+line; an incomplete-input error buffers the line and enters continuation mode; any other outcome leaves continuation mode and clears the buffer before reporting or running"},
+			doc:  "line-at-a-time driver: in continuation mode a non-empty line is only buffered; an empty line (or any line outside continuation mode) compiles buffer+line; an incomplete-input error buffers the line and enters continuation mode; any other outcome leaves continuation mode and clears the buffer before reporting or running"},
 	}
 }
